@@ -4,7 +4,9 @@
 (* (harness/replay/timestamps.py):                                              *)
 (*   acq(t)      the lock was acquired            Acquire(t)                    *)
 (*   read(t, v)  the clock was read, returned v   ReadClock(t, v)               *)
-(*   set(t, x)   self.last = x was executed       Compute(t) with last' = x     *)
+(*   conf        first event: the configuration  (binds conf in TraceInit)      *)
+(*   set(t, x, w) self.last = x was executed      Compute(t) with last' = x and  *)
+(*               w warnings logged by this call   warnings' = warnings + w       *)
 (*   rel(t)      the lock is released             Release(t)                    *)
 (*   ret(t, x)   the call returned x              no state change; x = ret[t]   *)
 (* A generator without the lock produces read/set events outside an            *)
@@ -16,7 +18,8 @@ tvars == <<vars, tid, l>>
 
 Tr == Traces[tid]
 
-TraceInit == tid \in 1..NTraces /\ l = 1 /\ Init
+TraceInit == /\ tid \in 1..NTraces /\ l = 2 /\ Init
+             /\ conf = [warn |-> Tr[1].warn, eager |-> Tr[1].eager]
 
 TraceNext ==
     /\ l <= Len(Tr)
@@ -25,7 +28,7 @@ TraceNext ==
     /\ LET e == Tr[l] IN
           \/ e.e = "acq"  /\ Acquire(e.t)
           \/ e.e = "read" /\ ReadClock(e.t, e.v)
-          \/ e.e = "set"  /\ Compute(e.t) /\ last' = e.x
+          \/ e.e = "set"  /\ Compute(e.t) /\ last' = e.x /\ warnings' = warnings + e.w
           \/ e.e = "rel"  /\ Release(e.t)
           \/ e.e = "ret"  /\ pc[e.t] = "idle" /\ calls[e.t] > 0 /\ ret[e.t] = e.x /\ UNCHANGED vars
 
